@@ -712,7 +712,8 @@ def rich_name():
     part = name_component(4).filter(lambda p: p and p not in ('.', '..'))
     return st.tuples(
         st.lists(part, max_size=3),
-        name_component(6),
+        st.one_of(name_component(6), name_component(6),
+                  st.tuples(name_component(3), name_component(3)).map('.'.join)),      # dotted stems / dot-files
         st.one_of(st.just(''), name_component(4, dots=False)),
     ).map(list).filter(valid_name)
 
